@@ -62,6 +62,24 @@ pub fn build_u(slots: &[(u64, u64)], used: bool, kind_offset: usize, unbound: bo
     Case { key, slots: slots.to_vec(), used, src }
 }
 
+/// Variable i is used only by the entry point of stage (V, F, C)[i % 3].
+pub fn build_spread(slots: &[(u64, u64)], kind_offset: usize) -> Case {
+    let mut src = String::new();
+    let mut bodies = [String::new(), String::new(), String::new()];
+    for (i, (g, b)) in slots.iter().enumerate() {
+        // uniform / read-only texture kinds only: storage writes are not allowed in vertex stages
+        let kind = ["uniform", "texture"][(i + kind_offset) % 2];
+        let name = var_name(i);
+        src.push_str(&decl(kind, &name, *g, *b));
+        bodies[i % 3].push_str(&touch(kind, &name));
+    }
+    src.push_str(&format!("@vertex fn vs_main() -> @builtin(position) vec4<f32> {{\n    var acc: f32 = 0.0;\n{}    return vec4<f32>(acc);\n}}\n", bodies[0]));
+    src.push_str(&format!("@fragment fn fs_main() -> @location(0) vec4<f32> {{\n    var acc: f32 = 0.0;\n{}    return vec4<f32>(acc);\n}}\n", bodies[1]));
+    src.push_str(&format!("@compute @workgroup_size(1) fn cs_main() {{\n    var acc: f32 = 0.0;\n{}}}\n", bodies[2]));
+    let key = format!("slots={}|used=spread", slots.iter().map(|(g, b)| format!("{g}.{b}")).collect::<Vec<_>>().join(","));
+    Case { key, slots: slots.to_vec(), used: true, src }
+}
+
 fn var_name(i: usize) -> String {
     format!("{}{}", ["zz", "mm", "aa", "qq", "bb"][i % 5], i)
 }
@@ -247,6 +265,15 @@ pub fn cases(thorough: bool) -> Vec<Case> {
             }
         }
     }
+    // variables used by different entry points (stages rotate V, F, C with the declaration index): a repeated pair whose
+    // two variables are never used by the same entry passes naga's per-entry collision check
+    for d in 2..=3usize {
+        for seq in wgslgen::sequences(grid.len(), d) {
+            let slots: Vec<(u64, u64)> = seq.iter().map(|i| grid[*i]).collect();
+            let off = seq.iter().sum::<usize>();
+            out.push(build_spread(&slots, off));
+        }
+    }
     // boundary layer: extreme indices, depth <= 2
     let ext: [u64; 8] = [0, 1, 2, 255, 65535, 1 << 31, u32::MAX as u64, (u32::MAX as u64) + 1];
     let mut egrid = vec![];
@@ -294,7 +321,7 @@ pub fn run(tier: &str) -> i32 {
     rep.traces_validated = rep.evaluations;
     rep.set("outcome_classes", json!(rep.outcomes.iter().cloned().collect::<Vec<_>>()));
     rep.rule = format!(
-        "all declaration sequences (order is state) of length <= {} over (group,binding) in {}x{} with rotating resource kinds, each with variables unused / used by an entry, x validation off/on; plus a boundary layer with indices from {{0,1,2,255,65535,2^31,2^32-1,2^32}}. Oracle: contract model (duplicate -> DuplicateBinding of a repeated index; else non-dense groups -> NonConsecutiveBindGroups; else Ok with every declared (group,binding,name) present exactly once); naga called directly decides parse/validation pre-emption. Non-trivial = case whose outcome was compared with the model.",
+        "all declaration sequences (order is state) of length <= {} over (group,binding) in {}x{} with rotating resource kinds, each with variables unused / used by one entry / used by entries of different stages, x validation off/on; plus a boundary layer with indices from {{0,1,2,255,65535,2^31,2^32-1,2^32}}. Oracle: contract model (duplicate -> DuplicateBinding of a repeated index; else non-dense groups -> NonConsecutiveBindGroups; else Ok with every declared (group,binding,name) present exactly once); naga called directly decides parse/validation pre-emption. Non-trivial = case whose outcome was compared with the model.",
         if thorough { 5 } else { 4 },
         if thorough { 4 } else { 3 },
         3
